@@ -203,6 +203,15 @@ def _apply_rules(ed: _Edit, toks, lo, hi, repo, opts, rules, dropped, file):
                 bump('X1b-debug_assert')
                 p = pos[e] + 1
                 continue
+            if t.text == 'unreachable' and 'unreachable_diverges' in opts:
+                # X1c: `unreachable!(..)` becomes a call of a diverging environment function (no precondition):
+                # reaching it is a panic, which the contract neither forbids nor assumes away
+                dropped.append('%s:%d %s -> cv_unreachable() (X1c: panic site kept as a diverging call; panic-freedom not claimed)' % (
+                    file, t.line, ' '.join(''.join(x.text for x in toks[k:c + 1]).split())[:80]))
+                ed.replace(k, c, 'cv_unreachable()')
+                bump('X1c-unreachable')
+                p = pos[c] + 1
+                continue
             if t.text in ('ok', 'some'):
                 body = _macro_body(repo, t.text)
                 # nested ok!(..) inside the argument is not expected; argument copied verbatim
